@@ -525,7 +525,12 @@ impl Response {
         }
 
         if current_string_is_empty {
-            let content_type = response._get_header(Header::_CONTENT_TYPE.to_string()).unwrap();
+            let boxed_content_type = response._get_header(Header::_CONTENT_TYPE.to_string());
+            if boxed_content_type.is_none() {
+                eprintln!("Content-Type is missing");
+                return;
+            }
+            let content_type = boxed_content_type.unwrap();
             let is_multipart = Response::_is_multipart_byteranges_content_type(&content_type);
 
             if is_multipart {
